@@ -125,3 +125,20 @@ Proof.
   2:{ destruct Hin as [E|Hin]; [inversion E; subst; auto|]. eapply IH; eauto. }
   all: destruct Hin as [E|[]]; inversion E; subst; auto.
 Qed.
+
+(** * The property monitors that consist of event-level codes only *)
+Lemma prop_ok_of_codes pid c g ps os :
+  (forall k, In k (family pid) -> ~ In k (viol_of c g ps os)) -> prop_ok pid c g ps os = true.
+Proof.
+  intros H. unfold prop_ok. apply forallb_forall. intros k Hk. apply negb_true_iff, mem_false. auto.
+Qed.
+
+Lemma C01_code c g ps : wf_graph g = true -> valid_run c g (init g) ps = true ->
+  ~ In 1 (viol_of c g ps (run c g (init g) ps)).
+Proof. intros Hw V. apply famA_silent; auto. cbn. tauto. Qed.
+
+Lemma C01_holds c g ps : wf_graph g = true -> valid_run c g (init g) ps = true ->
+  prop_ok 1 c g ps (run c g (init g) ps) = true.
+Proof.
+  intros Hw V. apply prop_ok_of_codes. intros k [<-|[]]. apply C01_code; auto.
+Qed.
